@@ -8,8 +8,19 @@ delimiters or content) on every dumped tree; failures classified by Spec/SourceP
 from checks import srcposfam
 
 
+def parser_models(tier):
+    """the block-phase and inline-phase models carry every source position exactly as the compiled parser computes
+    it (the ties compare them string for string); both are tied here, so that a change of where a position points
+    moves the code away from the models and is reported even when the search meets no failing slice"""
+    def f(c):
+        from checks import layerc
+        layerc.blocks(c, tier, 0.15 if tier == "quick" else 0.1, proofs=False)
+        layerc.inlines(c, tier, 0.2 if tier == "quick" else 0.1, proofs=False)
+    return f
+
+
 def main(tier):
-    c = srcposfam.run("C12", ("V",), tier)
+    c = srcposfam.run("C12", ("V",), tier, after_proofs=parser_models(tier))
     c.cov["partial_clauses"] = [
         "the global statement (forall inputs: every slice clause holds) is not proved; it is evaluated with the extracted predicate and FAILS in the known classes listed in known_findings.json (C12-a ...)",
         "the verbatim clause is not demanded when the smart option is on, nor for a text whose slice contains a backslash, an ampersand or NUL (the property text excludes escape, entity, smart punctuation, NUL)"]
